@@ -98,6 +98,12 @@ def run(e: Engine, rep: Report):
              'header block) - a body that went through the parser and the '
              'generator has every lone CR / LF rewritten to CRLF')
     e13(e, rep)
+    rep.rule('E14', 'parse() does not fail on a search that finds nothing: '
+             'no index() / rindex() (ValueError when the value is absent) '
+             'below Envelope.parse whose ValueError can leave it - what the '
+             'parser hands back need not occur literally in the input '
+             '(transfer encodings are undone, line breaks translated)')
+    e14(e, rep)
     rep.floor('E2', 4, 'body provenance obligations')
 
 
@@ -1075,3 +1081,40 @@ def e13(e: Engine, rep: Report):
     if n < 1:
         rep.error('anchor vanished: assignment of self.message in '
                   'Envelope.parse')
+
+
+# --------------------------------------------------------------------- E14
+def e14(e: Engine, rep: Report):
+    ctx = e.method_ctx(ENV, 'parse')
+
+    def raises(b, n, r):
+        if n.kind == 'call' and isinstance(n.ast.func, ast.Attribute) and \
+                n.ast.func.attr in ('index', 'rindex') and n.ast.args:
+            return {'builtins.ValueError'}
+        return set()
+    g = e.build(ctx, inline=e.inline_same_self(), raises=raises,
+                max_depth=4, assert_raises=False)
+    where = ctx.func.qname
+    rep.functions.add(where)
+    reach = dataflow.reachable(g)
+    esc = []
+    for n in g.nodes:
+        if n.id not in reach or n.kind != 'call':
+            continue
+        for l, s2 in n.succ:
+            if s2 is g.raise_exit and isinstance(l, tuple) and \
+                    l[1] == 'builtins.ValueError':
+                esc.append(n)
+    rep.evaluations += 1
+    if not esc:
+        rep.ok('E14', where, 'no unguarded index() below parse()',
+               reason='no index() / rindex() whose ValueError leaves parse()',
+               nontrivial=False, loc=ctx.func.loc())
+    for n in esc:
+        rep.bad('E14', where, '`%s` can fail' % n.text(50),
+                'Envelope.parse looks something up with %s(), which raises '
+                'ValueError when it is not there: for input the email '
+                'parser hands back in another form than it came in '
+                '(base64 / quoted-printable undone, line breaks '
+                'translated) parse() raises instead of storing the message'
+                % n.ast.func.attr, loc=n.loc())
